@@ -13,6 +13,7 @@
 #include "Anamorphosis/AnamHermite.hpp"
 #include "Anamorphosis/AnamEmpirical.hpp"
 #include "Anamorphosis/AnamContinuous.hpp"
+#include "Anamorphosis/CalcAnamTransform.hpp"
 #include "Polynomials/Hermite.hpp"
 #include "Basic/VectorHelper.hpp"
 #include "Basic/Law.hpp"
@@ -289,16 +290,18 @@ struct Engine
   std::shared_ptr<PCA> po, pc;
   std::shared_ptr<Rotation> ro, rc;
   int rotDen = 1;
+  int r100 = 100;     // current change-of-support coefficient of the Hermite object (percent)
 
-  static std::shared_ptr<AnamContinuous> newAnam(const std::string& kind, int opt)
+  // r100 = change-of-support coefficient in percent (Hermite only; 100 = point support)
+  static std::shared_ptr<AnamContinuous> newAnam(const std::string& kind, int opt, int r100 = 100)
   {
-    if (kind == "AH") return std::make_shared<AnamHermite>(opt);
+    if (kind == "AH") return std::make_shared<AnamHermite>(opt, true, r100 / 100.);
     return std::make_shared<AnamEmpirical>(100, TEST, opt > 0, opt != 2);
   }
   static VectorDouble anamState(const AnamContinuous* a)
   {
     VectorDouble s;
-    if (auto h = dynamic_cast<const AnamHermite*>(a)) { s = h->getPsiHns(); s.push_back(h->getMean()); s.push_back(h->getVariance()); }
+    if (auto h = dynamic_cast<const AnamHermite*>(a)) { s = h->getPsiHns(); s.push_back(h->getMean()); s.push_back(h->getVariance()); s.push_back(h->getRCoef()); }
     if (auto e = dynamic_cast<const AnamEmpirical*>(a))
     {
       s.push_back(e->getNDisc()); s.push_back(e->getSigma2e());
@@ -331,12 +334,22 @@ struct Engine
     delete db;
     return err;
   }
-  // validity domain the fitted object reports: inside the practical AND the absolute interval
+  // validity domain the fitted object reports: inside the practical AND the absolute interval.  After a change
+  // of support the object keeps the Gaussian interval; the raw values it can invert are the image of that
+  // interval by its own (block) transformToRawValue, inside the raw interval it still reports.
   static bool inValidity(const AnamContinuous* a, const std::string& dir, double x)
   {
     if (isNA(x)) return false;
-    if (dir == "fwd") return x >= std::max(a->getPzmin(), a->getAzmin()) && x <= std::min(a->getPzmax(), a->getAzmax());
-    return x >= std::max(a->getPymin(), a->getAymin()) && x <= std::min(a->getPymax(), a->getAymax());
+    // the intervals are OPEN (Interval excludes both ends: the bound itself is already treated as outside)
+    double ylo = std::max(a->getPymin(), a->getAymin()), yhi = std::min(a->getPymax(), a->getAymax());
+    if (dir != "fwd") return x > ylo && x < yhi;
+    if (!(x > std::max(a->getPzmin(), a->getAzmin()) && x < std::min(a->getPzmax(), a->getAzmax()))) return false;
+    if (a->isChangeSupportDefined())
+    {
+      double zlo = a->transformToRawValue(ylo + 1e-9), zhi = a->transformToRawValue(yhi - 1e-9);
+      if (isNA(zlo) || isNA(zhi) || !(x > zlo && x < zhi)) return false;
+    }
+    return true;
   }
   static int fitPca(PCA* p, const std::string& kind, const DataSet& ds, int opt)
   {
@@ -425,8 +438,10 @@ static bool evalFresh(const std::string& kind, const std::string& base, const Va
     Engine eng; eng.kind = kind;
     if (kind == "AH" || kind == "AE")
     {
+      int r100 = h.at("fit").geti("r", 100);
       auto a = Engine::newAnam(kind, opt);
       if (Engine::fitAnam(a.get(), DATA.at(fd), 0) != 0) return false;
+      if (r100 != 100 && a->updatePointToBlock(r100 / 100.) != 0) return false;   // canonical route: fit the point model, then change the support
       if (eng.applyAnam(a.get(), dir, cur, nxt) != 0) return false;
     }
     else if (kind == "PCA" || kind == "MAF")
@@ -443,6 +458,30 @@ static bool evalFresh(const std::string& kind, const std::string& base, const Va
 }
 
 static Value intsV(const std::vector<int>& v) { Value a = Value::array(); for (int x : v) a.push(Value(x)); return a; }
+
+// identities of the state (coefficients, r) of a Hermite anamorphosis, point or block support
+static void hermiteStateObs(const AnamHermite* h, int nuse, Value& ob, Value& alg)
+{
+  // the public coefficients (psi_n r^n) explain the transform inside the reported Gaussian interval
+  double e = 0., spread = std::fabs(h->transformToRawValue(1.) - h->transformToRawValue(-1.));
+  if (!(spread > 0.)) spread = 1.;
+  VectorDouble psi = h->getPsiHns();
+  for (double y = std::max(h->getPymin(), h->getAymin()) + 0.05; y < std::min(h->getPymax(), h->getAymax()); y += 0.37)
+  {
+    VectorDouble hn = hermitePolynomials(y, 1., (int)psi.size());
+    double z = 0.; for (size_t k = 0; k < psi.size(); k++) z += psi[k] * hn[k];
+    // inside the Gaussian interval the only other thing the object may do is to clamp at the absolute raw bounds
+    z = std::max(h->getAzmin(), std::min(h->getAzmax(), z));
+    e = std::max(e, std::fabs(z - h->transformToRawValue(y)) / spread);
+  }
+  alg.push(algRec("psi-explains", e));
+  // mean = psi_0 whatever the support, variance = sum of the squared coefficients of order >= 1
+  double v = 0.; for (size_t k = 1; k < psi.size(); k++) v += psi[k] * psi[k];
+  alg.push(algRec("mean=psi0", std::fabs(h->getMean() - h->getPsiHn(0)) / std::max(1., std::fabs(h->getMean()))));
+  alg.push(algRec("variance=sum-psi2", std::fabs(h->getVariance() - v) / std::max(1., v)));
+  ob["psi0m"] = Value((long long)std::llround(std::max(-2.0e6, std::min(2.0e6, h->getPsiHn(0) * nuse)) * 1000.));
+  ob["varn2"] = Value((long long)std::llround(std::max(-2.0e9, std::min(2.0e9, h->getVariance() * nuse * nuse))));
+}
 
 // ---------------------------------------------------------------------------------- one case
 static Value runCase(int id, const Value& cs)
@@ -484,7 +523,7 @@ static Value runCase(int id, const Value& cs)
           sameOpt = (e->isFlagDilution() == (opt > 0)) && (e->isFlagGaussian() == (opt != 2));
         }
         ob["reused"] = Value(sameOpt);
-        if (!sameOpt) { E.o = Engine::newAnam(kind, opt); E.oDb = Engine::newAnam(kind, opt); E.oLoc = Engine::newAnam(kind, opt); }
+        if (!sameOpt) { E.o = Engine::newAnam(kind, opt, E.r100); E.oDb = Engine::newAnam(kind, opt, E.r100); E.oLoc = Engine::newAnam(kind, opt, E.r100); }
         err = Engine::fitAnam(E.o.get(), ds, 0);
         int e1 = Engine::fitAnam(E.oDb.get(), ds, 1);
         int e2 = Engine::fitAnam(E.oLoc.get(), ds, 2);
@@ -498,22 +537,9 @@ static Value runCase(int id, const Value& cs)
         ob["nuse"] = Value(nuse);
         if (kind == "AH")
         {
-          auto h = dynamic_cast<AnamHermite*>(E.o.get());
           alg.push(algRec("hermite-gram", hermiteGramResidual(opt)));
           alg.push(algRec("hermite-ranks", hermiteRankFormResidual(opt)));
-          // the public coefficients explain the transform inside the practical interval
-          double e = 0., spread = std::fabs(h->transformToRawValue(1.) - h->transformToRawValue(-1.));
-          if (!(spread > 0.)) spread = 1.;
-          VectorDouble psi = h->getPsiHns();
-          for (double y = std::max(h->getPymin(), h->getAymin()); y <= std::min(h->getPymax(), h->getAymax()); y += 0.37)
-          {
-            VectorDouble hn = hermitePolynomials(y, 1., (int)psi.size());
-            double z = 0.; for (size_t k = 0; k < psi.size(); k++) z += psi[k] * hn[k];
-            e = std::max(e, std::fabs(z - h->transformToRawValue(y)) / spread);
-          }
-          alg.push(algRec("psi-explains", e));
-          ob["psi0m"] = Value((long long)std::llround(std::max(-2.0e6, std::min(2.0e6, h->getPsiHn(0) * nuse)) * 1000.));
-          ob["varn2"] = Value((long long)std::llround(std::max(-2.0e9, std::min(2.0e9, h->getVariance() * nuse * nuse))));
+          hermiteStateObs(dynamic_cast<AnamHermite*>(E.o.get()), nuse, ob, alg);
         }
         // the reported intervals are ordered and define a non-empty validity domain
         {
@@ -585,6 +611,47 @@ static Value runCase(int id, const Value& cs)
       }
       ob["err"] = Value(err);
     }
+    else if (op == "support")
+    {
+      // change of support of the fitted Hermite anamorphosis: r = opt / 100 (100 = back to point support)
+      int r100 = st.at("opt").i();
+      double r = r100 / 100.;
+      AnamHermite* h = dynamic_cast<AnamHermite*>(E.o.get());
+      double mean0 = h->getMean();
+      VectorDouble pt = h->getPsiHns();
+      if (h->getRCoef() < 1.) { double rk = 1.; for (size_t k = 1; k < pt.size(); k++) { rk *= h->getRCoef(); pt[k] /= rk; } }
+      err = h->updatePointToBlock(r);
+      E.r100 = r100;
+      int e1 = anamPointToBlock(E.oDb.get(), 0, TEST, r, TEST);
+      dynamic_cast<AnamHermite*>(E.oLoc.get())->setRCoef(r);
+      Cmp c1; c1.e = ecode(vecDist(Engine::anamState(E.o.get()), Engine::anamState(E.oDb.get()))); c1.n = 1;
+      Cmp c2; c2.e = ecode(vecDist(Engine::anamState(E.o.get()), Engine::anamState(E.oLoc.get()))); c2.n = 1;
+      forms.push(formRec("anamPointToBlock-coeff", e1, c1));
+      forms.push(formRec("setRCoef", 0, c2));
+      // the mean is kept, the coefficients are the point ones times r^n, the bounds are not touched
+      alg.push(algRec("support-keeps-mean", std::fabs(h->getMean() - mean0) / std::max(1., std::fabs(mean0))));
+      {
+        VectorDouble now = h->getPsiHns(); double e = 0., rk = 1., big = 1.;
+        for (size_t k = 0; k < now.size() && k < pt.size(); k++) { big = std::max(big, std::fabs(pt[k])); e = std::max(e, std::fabs(now[k] - pt[k] * rk)); rk *= r; }
+        alg.push(algRec("psi-block=psi-point*r^n", e / big));
+      }
+      alg.push(algRec("rcoef-stored", std::fabs(h->getRCoef() - r)));
+      // variance -> r -> variance: the coefficient derived from the block variance gives back that variance
+      if (r100 < 100)
+      {
+        std::shared_ptr<AnamHermite> q(dynamic_cast<AnamHermite*>(h->clone()));
+        q->updatePointToBlock(1.);
+        double cvv = h->getVariance();
+        int e2 = anamPointToBlock(q.get(), 0, cvv, TEST, TEST);
+        alg.push(algRec("variance->r->variance", e2 != 0 ? INFINITY : std::fabs(q->getVariance() - cvv) / std::max(1., cvv)));
+        alg.push(algRec("variance->r", e2 != 0 ? INFINITY : std::fabs(q->getRCoef() - r)));
+      }
+      Arr a0 = fromData(DATA.at(st.at("data").s()));
+      int nuse = 0; for (int i = 0; i < a0.n; i++) nuse += a0.dom[i];
+      ob["nuse"] = Value(nuse);
+      hermiteStateObs(h, nuse, ob, alg);
+      ob["err"] = Value(err);
+    }
     else if (op == "copy")
     {
       // the copy reports the same public state as the original
@@ -649,6 +716,16 @@ static Value runCase(int id, const Value& cs)
         }
         ob["rin"] = intsV(denseRank(in.v[0], res.dom));
         ob["rout"] = intsV(denseRank(res.v[0], res.dom));
+        // the round-trip law in the CURRENT state of the object: the opposite transform brings the output back
+        {
+          Arr back;
+          int eb = E.applyAnam(a, dir == "fwd" ? "inv" : "fwd", res, back);
+          Arr ref = in; ref.dom = back.dom;
+          Cmp c = compareArr(back, ref, kind);
+          if (eb != 0) c.e = EINF;
+          Value rt = Value::object(); rt["e"] = Value(c.e); rt["n"] = Value(c.n);
+          ob["rt"] = rt;
+        }
       }
       else if (kind == "PCA" || kind == "MAF")
       {
